@@ -55,6 +55,13 @@ def reloadOK (l : List EffAt) : Bool :=
 
 theorem C19_gen_reload_memory_only : reloadOK Gen.syncReadQueueEffects = true := by decide
 
+/-- `memHub.NotifyBlobReceived` starts EVERY receive hook (in a loop, through the group) and only then
+collects the error: a failing hook cannot keep a later one from running -/
+def hubRunsAllHooks (l : List EffAt) : Bool :=
+  l == [⟨.gateStart, false, true⟩, ⟨.gateDone, false, false⟩]
+
+theorem C19_gen_hub_runs_all_hooks : hubRunsAllHooks Gen.hubNotifyEffects = true := by decide
+
 /-- `blobserver.receive`: the store has the blob before the hub (and the sync hook) is told -/
 theorem C19_gen_receive_order : spine Gen.blobReceiveEffects = [.storeReceive, .hubNotify] := by decide
 
@@ -190,6 +197,21 @@ theorem C19_fetch_error_copy_is_noop (k : ErrKind) :
     let s' := run .fixed s [.cpStart 1, .cpXfer 1 (.fetchErr k), .qDel 1 true, .cpEnd 1]
     s'.rows = [1] ∧ s'.need = [1] ∧ s'.dst = [] ∧ s'.copying = [] ∧ s'.cps = [] := by
   cases k <;> decide
+
+/-! ## several sync destinations on one source -/
+
+/-- **a failing hook of handler A does not change what handler B does**: in the product of sync
+machines over one upload stream, the state of every machine other than number `h` after an upload
+during which `h`'s queue write failed equals its state after the same upload without any failure. -/
+theorem C19_multi_hook_failure_is_local (v : Variant) (ms : List St) (i h j : Nat) (hj : j + 1 ≠ h) :
+    (uploadAll v ms i h)[j]? = (uploadAll v ms i 0)[j]? := by
+  have h1 : (j + 1 != h) = true := by simpa using hj
+  simp [uploadAll, List.getElem?_mapIdx, h1]
+
+/-- non-vacuous: three handlers, the first one's queue write fails – the second and third are as in
+the clean run (row written, blob pending), the first one has no row -/
+example : (uploadAll .fixed [init, init, init] 7 1).map (·.rows) = [[], [7], [7]] ∧
+    (uploadAll .fixed [init, init, init] 7 0).map (·.rows) = [[7], [7], [7]] := by decide
 
 /-! ## eventual delivery -/
 
